@@ -424,3 +424,411 @@ Proof.
   destruct (merge_keys suppress l (choose_default_to ext suppress dflt l) ns ks f []) as [[ks1 w1]| | |]; try tauto.
   specialize (IH ks1). destruct (merge_all ext suppress dflt ns ks1 rest) as [[? ?]| | |]; tauto.
 Qed.
+
+(** * builder keys made from a duplicate-free file hold no key twice *)
+Fixpoint bk_nodup (b : bk) : bool :=
+  match b with BValue _ _ => true | BSub _ ks => bks_nodup ks end
+with bks_nodup (ks : bks) : bool :=
+  match ks with
+  | BNil => true
+  | BCons k b r => match bks_get r k with None => true | Some _ => false end && bk_nodup b && bks_nodup r
+  end.
+
+Lemma mk_nodup_mut : forall dflt ns,
+  (forall t path b, mk_value dflt ns path t = Ok b -> tree_nodup t = true -> bk_nodup b = true)
+  /\ (forall f path ks, mk_keys dflt ns path f = Ok ks -> forest_nodup f = true ->
+        bks_nodup ks = true /\ forall k, forest_get f k = None -> bks_get ks k = None).
+Proof.
+  intros dflt ns. apply tree_forest_mutind.
+  - intros p path b H _. cbn [mk_value] in H. now injection H as <-.
+  - intros path b H. discriminate.
+  - intros g IH path b H Hn. cbn [mk_value] in H.
+    destruct (mk_keys dflt ns path g) as [ks| | |] eqn:Hk; try discriminate. injection H as <-.
+    cbn [bk_nodup]. exact (proj1 (IH _ _ Hk Hn)).
+  - intros path ks H _. cbn [mk_keys] in H. injection H as <-. split; reflexivity.
+  - intros k t IHt r IHr path ks H Hn. cbn [mk_keys] in H. cbn [forest_nodup] in Hn.
+    apply andb_true_iff in Hn. destruct Hn as [Hn Hnr]. apply andb_true_iff in Hn. destruct Hn as [Hk Hnt].
+    destruct (mk_value dflt ns (path ++ [k]) t) as [b| | |] eqn:Hv; try discriminate.
+    destruct (mk_keys dflt ns path r) as [bs| | |] eqn:Hr; try discriminate. injection H as <-.
+    destruct (IHr _ _ Hr Hnr) as [Hbs Hget]. split.
+    + cbn [bks_nodup]. rewrite (IHt _ _ Hv Hnt), Hbs.
+      destruct (forest_get r k) eqn:Hg; [discriminate|]. now rewrite (Hget k Hg).
+    + intros k0 Hk0. cbn [forest_get] in Hk0. cbn [bks_get]. destruct (k0 =? k); [discriminate | auto].
+Qed.
+
+Definition is_some {A} (o : option A) : bool := match o with Some _ => true | None => false end.
+
+Lemma merge_nodup_mut : forall suppress top dt ns,
+  (forall b v path b' ws, merge_value suppress top dt ns b v path = Ok (b', ws) -> bk_nodup b' = bk_nodup b)
+  /\ (forall ks f path ks' ws, merge_keys suppress top dt ns ks f path = Ok (ks', ws) ->
+        bks_nodup ks' = bks_nodup ks /\ forall k, is_some (bks_get ks' k) = is_some (bks_get ks k)).
+Proof.
+  intros suppress top dt ns. apply bk_bks_mutind.
+  - intros p d v path b' ws H. cbn [merge_value] in H.
+    destruct v as [x| |g]; [| |discriminate]; now injection H as <- <-.
+  - intros fk ks IH v path b' ws H. cbn [merge_value] in H.
+    destruct v as [x| |g]; [discriminate| |]; unfold finish_locale in H.
+    + destruct (merge_keys suppress top dt ns ks (dummy_forest fk) path) as [[ks' w]| | |] eqn:Hm; try discriminate.
+      injection H as <- <-. cbn [bk_nodup]. exact (proj1 (IH _ _ _ _ Hm)).
+    + destruct (merge_keys suppress top dt ns ks g path) as [[ks' w]| | |] eqn:Hm; try discriminate.
+      injection H as <- <-. cbn [bk_nodup]. exact (proj1 (IH _ _ _ _ Hm)).
+  - intros f path ks' ws H. cbn [merge_keys] in H. injection H as <- <-. split; reflexivity.
+  - intros k b IHb r IHr f path ks' ws H. cbn [merge_keys] in H.
+    destruct (merge_value suppress top dt ns b
+                (fst match forest_get f k with
+                     | Some v => (v, [])
+                     | None => (Null, if is_implicit dt then [WMissing top ns (path ++ [k])] else [])
+                     end) (path ++ [k])) as [[b1 w1]| | |] eqn:Hv; try discriminate.
+    destruct (merge_keys suppress top dt ns r f path) as [[r1 w2]| | |] eqn:Hr; try discriminate.
+    injection H as <- <-. destruct (IHr _ _ _ _ Hr) as [Hnr Hget]. split.
+    + cbn [bks_nodup]. rewrite (IHb _ _ _ _ Hv), Hnr. specialize (Hget k).
+      destruct (bks_get r1 k), (bks_get r k); try discriminate; reflexivity.
+    + intros k0. cbn [bks_get]. destruct (k0 =? k); [reflexivity | apply Hget].
+Qed.
+
+(** * a merge error names a genuine group/value mismatch *)
+Lemma dummy_forest_at : forall fk q t, forest_at (dummy_forest fk) q = Some t -> t = Null.
+Proof.
+  intros fk q t H. destruct q as [|k q]; [discriminate|]. rewrite forest_at_cons in H.
+  destruct (dummy_forest_get fk k) as [Hg|Hg]; rewrite Hg in H; [discriminate|].
+  destruct q; [now injection H as <- | discriminate].
+Qed.
+
+Lemma bks_at_get : forall ks k q b, bks_at ks (k :: q) = Some b -> exists b0, bks_get ks k = Some b0.
+Proof. intros ks k q b H. cbn [bks_at] in H. destruct (bks_get ks k); [eauto | discriminate]. Qed.
+
+Lemma merge_err_mut : forall suppress top dt ns,
+  (forall b v path e, merge_value suppress top dt ns b v path = Err e -> bk_nodup b = true ->
+     exists q b0 t, e = ESubKeyMissmatch top ns (path ++ q)
+                    /\ bk_at b q = Some b0 /\ tree_at v q = Some t /\ kind_ok b0 t = false)
+  /\ (forall ks f path e, merge_keys suppress top dt ns ks f path = Err e -> bks_nodup ks = true ->
+     exists q b0 t, e = ESubKeyMissmatch top ns (path ++ q)
+                    /\ bks_at ks q = Some b0 /\ forest_at f q = Some t /\ kind_ok b0 t = false).
+Proof.
+  intros suppress top dt ns. apply bk_bks_mutind.
+  - intros p d v path e H _. cbn [merge_value] in H. destruct v as [x| |g]; try discriminate.
+    injection H as <-. exists [], (BValue p d), (Group g). rewrite app_nil_r. repeat split.
+  - intros fk ks IH v path e H Hn. cbn [merge_value] in H. cbn [bk_nodup] in Hn.
+    destruct v as [x| |g]; unfold finish_locale in H.
+    + injection H as <-. exists [], (BSub fk ks), (Leaf x). rewrite app_nil_r. repeat split.
+    + destruct (merge_keys suppress top dt ns ks (dummy_forest fk) path) as [[ks' w]|e'| |] eqn:Hm; try discriminate.
+      injection H as <-. destruct (IH _ _ _ Hm Hn) as [q [b0 [t [_ [_ [Hat Hk]]]]]].
+      apply dummy_forest_at in Hat. subst t. discriminate.
+    + destruct (merge_keys suppress top dt ns ks g path) as [[ks' w]|e'| |] eqn:Hm; try discriminate.
+      injection H as <-. destruct (IH _ _ _ Hm Hn) as [q [b0 [t [He [Hb [Hat Hk]]]]]].
+      exists q, b0, t. split; [assumption|]. destruct q as [|k q]; [destruct ks; discriminate|]. repeat split; assumption.
+  - intros f path e H. discriminate.
+  - intros k b IHb r IHr f path e H Hn. cbn [merge_keys] in H. cbn [bks_nodup] in Hn.
+    apply andb_true_iff in Hn. destruct Hn as [Hn Hnr]. apply andb_true_iff in Hn. destruct Hn as [Hk Hnb].
+    destruct (merge_value suppress top dt ns b
+                (fst match forest_get f k with
+                     | Some v => (v, [])
+                     | None => (Null, if is_implicit dt then [WMissing top ns (path ++ [k])] else [])
+                     end) (path ++ [k])) as [[b1 w1]|e'| |] eqn:Hv; try discriminate.
+    + destruct (merge_keys suppress top dt ns r f path) as [[r1 w2]|e'| |] eqn:Hr; try discriminate.
+      injection H as <-. destruct (IHr _ _ _ Hr Hnr) as [q [b0 [t [He [Hb [Hat Hko]]]]]].
+      exists q, b0, t. split; [assumption|]. split; [|split; assumption].
+      destruct q as [|k0 q]; [destruct r; discriminate|].
+      destruct (bks_at_get _ _ _ _ Hb) as [b00 Hb00].
+      rewrite bks_at_cons. destruct (k0 =? k) eqn:Hek; [|assumption].
+      apply N.eqb_eq in Hek. subst k0. rewrite Hb00 in Hk. discriminate.
+    + injection H as <-. destruct (IHb _ _ _ Hv Hnb) as [q [b0 [t [He [Hb [Hat Hko]]]]]].
+      exists (k :: q), b0, t. split; [rewrite He, <- app_assoc; reflexivity|].
+      split; [rewrite bks_at_cons, N.eqb_refl; assumption|]. split; [|assumption].
+      rewrite forest_at_cons. destruct (forest_get f k) as [t0|]; cbn [fst] in Hat; [assumption|].
+      destruct q; [injection Hat as <-; discriminate | discriminate].
+Qed.
+
+Lemma mk_err_mut : forall dflt ns,
+  (forall t path e, mk_value dflt ns path t = Err e -> tree_nodup t = true ->
+     exists q, e = EExplicitDefaultInDefault ns (path ++ q) /\ tree_at t q = Some Null)
+  /\ (forall f path e, mk_keys dflt ns path f = Err e -> forest_nodup f = true ->
+     exists q, e = EExplicitDefaultInDefault ns (path ++ q) /\ forest_at f q = Some Null).
+Proof.
+  intros dflt ns. apply tree_forest_mutind.
+  - intros p path e H. discriminate.
+  - intros path e H _. cbn [mk_value] in H. injection H as <-. exists []. now rewrite app_nil_r.
+  - intros g IH path e H Hn. cbn [mk_value] in H.
+    destruct (mk_keys dflt ns path g) as [ks|e'| |] eqn:Hk; try discriminate. injection H as <-.
+    destruct (IH _ _ Hk Hn) as [q [He Hat]]. exists q. split; [assumption|].
+    destruct q as [|k q]; [destruct g; discriminate | exact Hat].
+  - intros path e H. discriminate.
+  - intros k t IHt r IHr path e H Hn. cbn [mk_keys] in H. cbn [forest_nodup] in Hn.
+    apply andb_true_iff in Hn. destruct Hn as [Hn Hnr]. apply andb_true_iff in Hn. destruct Hn as [Hk Hnt].
+    destruct (mk_value dflt ns (path ++ [k]) t) as [b|e'| |] eqn:Hv; try discriminate.
+    + destruct (mk_keys dflt ns path r) as [bs|e'| |] eqn:Hr; try discriminate. injection H as <-.
+      destruct (IHr _ _ Hr Hnr) as [q [He Hat]]. exists q. split; [assumption|].
+      destruct q as [|k0 q]; [destruct r; discriminate|].
+      destruct (forest_at_get _ _ _ _ Hat) as [t0 Ht0].
+      rewrite forest_at_cons in *. cbn [forest_get]. destruct (k0 =? k) eqn:Hek; [|assumption].
+      apply N.eqb_eq in Hek. subst k0. rewrite Ht0 in Hk. discriminate.
+    + injection H as <-. destruct (IHt _ _ Hv Hnt) as [q [He Hat]]. exists (k :: q).
+      split; [rewrite He, <- app_assoc; reflexivity|]. rewrite forest_at_cons. cbn [forest_get]. now rewrite N.eqb_refl.
+Qed.
+
+Lemma at_in_paths_mut :
+  (forall t q t' pfx, tree_at t q = Some t' -> In (pfx ++ q, is_leaf_tree t') (tree_paths t pfx))
+  /\ (forall f q t' pfx, forest_at f q = Some t' -> In (pfx ++ q, is_leaf_tree t') (forest_paths f pfx)).
+Proof.
+  apply tree_forest_mutind.
+  - intros x q t' pfx H. destruct q; [|discriminate]. injection H as <-. rewrite app_nil_r. now left.
+  - intros q t' pfx H. destruct q; [|discriminate]. injection H as <-. rewrite app_nil_r. now left.
+  - intros g IH q t' pfx H. destruct q as [|k q].
+    + injection H as <-. rewrite app_nil_r. now left.
+    + right. exact (IH _ _ pfx H).
+  - intros q t' pfx H. destruct q; discriminate.
+  - intros k t IHt r IHr q t' pfx H. destruct q as [|k0 q]; [discriminate|].
+    rewrite forest_at_cons in H. cbn [forest_get] in H. cbn [forest_paths]. apply in_or_app.
+    destruct (k0 =? k) eqn:He.
+    + apply N.eqb_eq in He. subst k0. left. specialize (IHt _ _ (pfx ++ [k]) H). now rewrite <- app_assoc in IHt.
+    + right. rewrite <- forest_at_cons in H. exact (IHr _ _ pfx H).
+Qed.
+
+Lemma has_null_at : forall f q, forest_at f q = Some Null -> forest_has_null f = true.
+Proof.
+  intros f q H. destruct (forest_has_null f) eqn:Hn; [reflexivity|].
+  exfalso. exact (proj2 no_null_at_mut _ _ _ Hn H eq_refl).
+Qed.
+
+Lemma mismatch_file : forall df f q, mismatch_at df f q = true -> file_mismatch df f = true.
+Proof.
+  intros df f q H. unfold file_mismatch. apply existsb_exists. unfold mismatch_at in H.
+  destruct (forest_at df q) as [d0|] eqn:Hd; [|discriminate]. destruct (forest_at f q) as [t|] eqn:Hat; [|discriminate].
+  exists (q, is_leaf_tree t). split; [exact (proj2 at_in_paths_mut _ _ _ [] Hat)|].
+  unfold mismatch_at. cbn [fst]. now rewrite Hat, Hd.
+Qed.
+
+(** what a failing check_locales_inner names *)
+Definition inner_err_ok (ns : option key) (dflt : loc) (df : forest) (rest : list (loc * forest)) (e : err) : Prop :=
+  match e with
+  | EExplicitDefaultInDefault ns' p => ns' = ns /\ forest_at df p = Some Null
+  | ESubKeyMissmatch l ns' p => ns' = ns /\ exists f, In (l, f) rest /\ mismatch_at df f p = true
+  end.
+
+Lemma merge_all_err : forall ext suppress dflt ns df rest ks e,
+  merge_all ext suppress dflt ns ks rest = Err e ->
+  bks_nodup ks = true -> forest_has_null df = false ->
+  (forall q, option_map bk_is_group (bks_at ks q)
+             = option_map (fun x => match x with Group _ => true | _ => false end) (forest_at df q)) ->
+  inner_err_ok ns dflt df rest e.
+Proof.
+  intros ext suppress dflt ns df. induction rest as [|[l f] rest IH]; intros ks e H Hn Hnull Hkind; cbn [merge_all] in H; [discriminate|].
+  unfold merge_locale, finish_locale in H.
+  destruct (merge_keys suppress l (choose_default_to ext suppress dflt l) ns ks f []) as [[ks1 w1]|e'| |] eqn:Hk; try discriminate.
+  - destruct (merge_all ext suppress dflt ns ks1 rest) as [[ks2 w2]|e'| |] eqn:Hr; try discriminate. injection H as <-.
+    destruct (proj2 (merge_nodup_mut _ _ _ _) _ _ _ _ _ Hk) as [Hn1 _].
+    assert (Hgoal : inner_err_ok ns dflt df rest e').
+    { apply (IH ks1 e' Hr); [congruence | assumption|].
+      intros q. rewrite (proj2 (merge_kind_mut _ _ _ _) _ _ _ _ _ Hk q). apply Hkind. }
+    destruct e' as [l' ns' p|ns' p]; cbn [inner_err_ok] in *; [|assumption].
+    destruct Hgoal as [Hns [f' [Hin Hm]]]. split; [assumption|]. exists f'. split; [now right | assumption].
+  - injection H as <-. destruct (proj2 (merge_err_mut _ _ _ _) _ _ _ _ Hk Hn) as [q [b0 [t [-> [Hb [Hat Hko]]]]]].
+    cbn [app inner_err_ok]. split; [reflexivity|]. exists f. split; [now left|].
+    specialize (Hkind q). rewrite Hb in Hkind. cbn [option_map] in Hkind.
+    destruct (forest_at df q) as [d0|] eqn:Hd; [|discriminate]. cbn [option_map] in Hkind. injection Hkind as Hg.
+    pose proof (proj2 no_null_at_mut _ _ _ Hnull Hd) as Hnn.
+    unfold mismatch_at. rewrite Hd, Hat. unfold kind_ok in Hko.
+    destruct t as [x| |g]; [| discriminate |].
+    + apply negb_false_iff in Hko. rewrite Hko in Hg. destruct d0; try discriminate. reflexivity.
+    + rewrite Hko in Hg. destruct d0 as [y| |h]; [reflexivity | congruence | discriminate].
+Qed.
+
+Theorem inner_err_genuine : forall ext suppress ns dflt df rest e,
+  check_locales_inner ext suppress ns ((dflt, df) :: rest) = Err e -> forest_nodup df = true ->
+  inner_err_ok ns dflt df rest e.
+Proof.
+  intros ext suppress ns dflt df rest e H Hn. cbn [check_locales_inner] in H.
+  destruct (mk_keys dflt ns [] df) as [ks|e'| |] eqn:Hk; try discriminate.
+  - apply (merge_all_err _ _ _ _ _ _ _ _ H).
+    + exact (proj1 (proj2 (mk_nodup_mut dflt ns) _ _ _ Hk Hn)).
+    + pose proof (proj2 (mk_null_mut dflt ns) df []) as Hm. now rewrite Hk in Hm.
+    + exact (proj2 (mk_kind_mut dflt ns) _ _ _ Hk).
+  - injection H as <-. destruct (proj2 (mk_err_mut dflt ns) _ _ _ Hk Hn) as [q [-> Hat]].
+    cbn [app inner_err_ok]. now split.
+Qed.
+
+(** * namespaces *)
+Definition encns (o : option key) : N := match o with Some n => n + 1 | None => 0 end.
+Lemma encns_inj : forall a b, encns a = encns b -> a = b.
+Proof. intros [a|] [b|] H; cbn [encns] in H; try reflexivity; try lia. f_equal. lia. Qed.
+Lemma onskey_neq : forall a b, a <> b -> onskey_eqb a b = false.
+Proof.
+  intros a b H. unfold onskey_eqb. destruct (opt_eqb a b) eqn:He; [|reflexivity]. apply opt_eqb_eq in He. contradiction.
+Qed.
+
+Lemma map_get_In : forall m k v, map_get m k = Some v -> In (k, v) m.
+Proof.
+  induction m as [|[k0 v0] r IH]; intros k v H; cbn [map_get] in H; [discriminate|].
+  destruct (k =? k0) eqn:He; [apply N.eqb_eq in He; injection H as ->; subst; now left | right; auto].
+Qed.
+
+Definition ns_ok (ext : list (loc * loc)) (nf : nsfiles) : Prop :=
+  exists dflt df rest, snd nf = (dflt, df) :: rest
+    /\ NoDup (dflt :: map fst rest)
+    /\ (forall x y, map_get ext x = Some y -> In x (map fst rest) /\ (y = dflt \/ In y (map fst rest)))
+    /\ (forall lf, In lf (snd nf) -> forest_nodup (snd lf) = true).
+
+Lemma wf_ns : forall c nf, wf_strict c = true -> In nf (c_nss c) -> ns_ok (c_ext c) nf.
+Proof.
+  intros c nf Hwf Hin. unfold wf_strict, wf_case in Hwf.
+  apply andb_true_iff in Hwf. destruct Hwf as [Hwf Hnd]. apply andb_true_iff in Hwf. destruct Hwf as [Hwf _].
+  rewrite forallb_forall in Hwf, Hnd. specialize (Hwf nf Hin). specialize (Hnd nf Hin).
+  destruct (snd nf) as [|[dflt df] rest] eqn:Hs; [discriminate|].
+  apply andb_true_iff in Hwf. destruct Hwf as [H1 H2].
+  exists dflt, df, rest. split; [assumption || reflexivity|]. split; [now apply nodupb_NoDup|]. split.
+  - intros x y Hxy. apply map_get_In in Hxy. rewrite forallb_forall in H2. specialize (H2 _ Hxy). cbn [fst snd] in H2.
+    apply andb_true_iff in H2. destruct H2 as [Hx Hy]. apply mem_In in Hx, Hy. split; [assumption|].
+    destruct Hy as [Hy|Hy]; [left; now symmetry | now right].
+  - intros lf Hlf. rewrite Hs in Hlf. rewrite forallb_forall in Hnd. now apply Hnd.
+Qed.
+
+Lemma wf_ns_nodup : forall c, wf_strict c = true -> NoDup (map (fun nf : nsfiles => encns (fst nf)) (c_nss c)).
+Proof.
+  intros c Hwf. unfold wf_strict, wf_case in Hwf.
+  apply andb_true_iff in Hwf. destruct Hwf as [Hwf _]. apply andb_true_iff in Hwf. destruct Hwf as [_ Hn].
+  now apply nodupb_NoDup in Hn.
+Qed.
+
+Lemma ns_files_of_In : forall c nf,
+  NoDup (map (fun nf : nsfiles => encns (fst nf)) (c_nss c)) -> In nf (c_nss c) -> ns_files_of c (fst nf) = snd nf.
+Proof.
+  intros c nf. unfold ns_files_of. induction (c_nss c) as [|nf0 r IH]; intros Hnd Hin; [contradiction|].
+  cbn [map] in Hnd. apply NoDup_cons_iff in Hnd. destruct Hnd as [Hn0 Hnd]. cbn [find].
+  destruct Hin as [->|Hin].
+  - unfold onskey_eqb. now rewrite opt_eqb_refl.
+  - rewrite onskey_neq; [now apply IH|]. intros Heq. apply Hn0.
+    apply in_map_iff. exists nf. split; [now rewrite Heq | assumption].
+Qed.
+
+Definition entries_of (G : option key -> list (loc * forest)) (nk : option key * bks) : list entry :=
+  bks_entries (G (fst nk)) (fst nk) (snd nk) [].
+
+Lemma check_locales_ok_ns : forall ext suppress G nss out ws,
+  check_locales ext suppress nss = Ok (out, ws) ->
+  NoDup (map (fun nf : nsfiles => encns (fst nf)) nss) ->
+  forall nf, In nf nss ->
+  exists ks w, check_locales_inner ext suppress (fst nf) (snd nf) = Ok (ks, w)
+    /\ forall p pay d, bks_leaf ks p = Some (pay, d) ->
+         find (matcher (fst nf) p) (flat_map (entries_of G) out) = Some (leaf_entry (G (fst nf)) (fst nf) p d).
+Proof.
+  intros ext suppress G. induction nss as [|[ns0 locs0] r IH]; intros out ws H Hnd nf Hin; [contradiction|].
+  cbn [check_locales] in H.
+  destruct (check_locales_inner ext suppress ns0 locs0) as [[ks0 w1]| | |] eqn:Hi; try discriminate.
+  destruct (check_locales ext suppress r) as [[out' w2]| | |] eqn:Hr; try discriminate. injection H as <- <-.
+  cbn [map] in Hnd. apply NoDup_cons_iff in Hnd. destruct Hnd as [Hn0 Hnd]. cbn [flat_map].
+  destruct Hin as [<-|Hin].
+  - exists ks0, w1. cbn [fst snd]. split; [assumption|]. intros p pay d Hl. rewrite find_app.
+    unfold entries_of at 1. cbn [fst snd].
+    pose proof (proj2 (find_leaf_mut (G ns0) ns0) ks0 [] p pay d Hl) as Hf. cbn [app] in Hf. now rewrite Hf.
+  - destruct (IH _ _ eq_refl Hnd nf Hin) as [ks [w [Hk Hfind]]]. exists ks, w. split; [assumption|].
+    intros p pay d Hl. rewrite find_app, find_none_all; [exact (Hfind p pay d Hl)|].
+    intros e He. unfold entries_of in He. cbn [fst snd] in He.
+    destruct (proj2 (entries_prefix_mut (G ns0) ns0) _ _ _ He) as [Hens _].
+    unfold matcher. rewrite Hens, onskey_neq; [reflexivity|].
+    intros Heq. apply Hn0. apply in_map_iff. exists nf. cbn [fst]. split; [now rewrite Heq | assumption].
+Qed.
+
+Lemma check_locales_ok_inner : forall ext suppress nss out ws,
+  check_locales ext suppress nss = Ok (out, ws) ->
+  forall nf, In nf nss -> exists ks w, check_locales_inner ext suppress (fst nf) (snd nf) = Ok (ks, w).
+Proof.
+  intros ext suppress. induction nss as [|[ns0 locs0] r IH]; intros out ws H nf Hin; [contradiction|].
+  cbn [check_locales] in H.
+  destruct (check_locales_inner ext suppress ns0 locs0) as [[ks0 w1]| | |] eqn:Hi; try discriminate.
+  destruct (check_locales ext suppress r) as [[out' w2]| | |] eqn:Hr; try discriminate.
+  destruct Hin as [<-|Hin]; [eauto | eapply IH; eauto].
+Qed.
+
+Lemma check_locales_err : forall ext suppress nss e,
+  check_locales ext suppress nss = Err e ->
+  exists nf, In nf nss /\ check_locales_inner ext suppress (fst nf) (snd nf) = Err e.
+Proof.
+  intros ext suppress. induction nss as [|[ns0 locs0] r IH]; intros e H; cbn [check_locales] in H; [discriminate|].
+  destruct (check_locales_inner ext suppress ns0 locs0) as [[ks0 w1]|e0| |] eqn:Hi; try discriminate.
+  - destruct (check_locales ext suppress r) as [[out' w2]|e1| |] eqn:Hr; try discriminate. injection H as <-.
+    destruct (IH _ eq_refl) as [nf [Hin Hnf]]. exists nf. split; [now right | assumption].
+  - injection H as <-. exists (ns0, locs0). split; [now left | assumption].
+Qed.
+
+Lemma check_locales_total : forall ext suppress nss,
+  (forall nf, In nf nss -> snd nf <> []) ->
+  match check_locales ext suppress nss with Ok _ | Err _ => True | _ => False end.
+Proof.
+  intros ext suppress. induction nss as [|[ns0 locs0] r IH]; intros Hne; cbn [check_locales]; [exact I|].
+  assert (H0 : locs0 <> []) by (apply (Hne (ns0, locs0)); now left).
+  destruct locs0 as [|[dflt df] rest]; [congruence|].
+  pose proof (inner_total ext suppress ns0 dflt df rest) as Ht.
+  destruct (check_locales_inner ext suppress ns0 ((dflt, df) :: rest)) as [[ks0 w1]| | |]; try tauto.
+  assert (Hr : forall nf, In nf r -> snd nf <> []) by (intros nf Hin; apply Hne; now right).
+  specialize (IH Hr). destruct (check_locales ext suppress r) as [[? ?]| | |]; tauto.
+Qed.
+
+Lemma existsb_false_all : forall A (f : A -> bool) l, existsb f l = false <-> forall x, In x l -> f x = false.
+Proof.
+  intros A f. induction l as [|a r IH]; cbn [existsb].
+  - split; [intros _ x [] | reflexivity].
+  - rewrite orb_false_iff, IH. split.
+    + intros [H1 H2] x [<-|Hx]; auto.
+    + intros H. split; [apply H; now left | intros x Hx; apply H; now right].
+Qed.
+
+(** a namespace that merges calls for no error; one that fails does *)
+Lemma inner_ok_no_error : forall ext suppress ns dflt df rest ks ws,
+  check_locales_inner ext suppress ns ((dflt, df) :: rest) = Ok (ks, ws) ->
+  ns_calls_for_error (ns, (dflt, df) :: rest) = false.
+Proof.
+  intros ext suppress ns dflt df rest ks ws H. unfold ns_calls_for_error. cbn [snd].
+  assert (Hnull : forest_has_null df = false).
+  { cbn [check_locales_inner] in H. pose proof (proj2 (mk_null_mut dflt ns) df []) as Hm.
+    destruct (mk_keys dflt ns [] df); try discriminate. exact Hm. }
+  rewrite Hnull. cbn [orb]. apply existsb_false_all. intros [l f] Hin. cbn [snd].
+  unfold file_mismatch. apply existsb_false_all. intros [q b] Hq. cbn [fst]. unfold mismatch_at.
+  destruct (forest_at df q) as [d0|] eqn:Hd; [|reflexivity]. destruct (forest_at f q) as [t|] eqn:Ht; [|reflexivity].
+  pose proof (ok_no_mismatch _ _ _ _ _ _ _ _ H l f q d0 t Hin Hd Ht) as Hm.
+  destruct d0, t; try reflexivity; contradiction.
+Qed.
+
+Lemma inner_err_calls : forall ns dflt df rest e,
+  inner_err_ok ns dflt df rest e -> ns_calls_for_error (ns, (dflt, df) :: rest) = true.
+Proof.
+  intros ns dflt df rest e H. unfold ns_calls_for_error. cbn [snd]. destruct e as [l ns' p|ns' p]; cbn [inner_err_ok] in H.
+  - destruct H as [_ [f [Hin Hm]]]. apply orb_true_iff. right. apply existsb_exists. exists (l, f).
+    split; [assumption|]. cbn [snd]. eapply mismatch_file; eauto.
+  - destruct H as [_ Hat]. now rewrite (has_null_at _ _ Hat).
+Qed.
+
+(** * C03: the bridge *)
+Theorem spec_C03_holds : forall c, wf_strict c = true -> spec_C03 c (model_result c) = true.
+Proof.
+  intros c Hwf. unfold model_result.
+  pose proof (wf_ns_nodup c Hwf) as Hnsnd.
+  assert (Hne : forall nf, In nf (c_nss c) -> snd nf <> []).
+  { intros nf Hin. destruct (wf_ns c nf Hwf Hin) as [dflt [df [rest [Hs _]]]]. rewrite Hs. discriminate. }
+  pose proof (check_locales_total (c_ext c) (c_suppress c) (c_nss c) Hne) as Htot.
+  destruct (check_locales (c_ext c) (c_suppress c) (c_nss c)) as [[out ws]|e| |] eqn:Hc; try contradiction.
+  - cbn [spec_C03]. apply andb_true_iff. split.
+    + apply negb_true_iff. unfold calls_for_error. apply existsb_false_all. intros [ns locs] Hin.
+      destruct (check_locales_ok_inner _ _ _ _ _ Hc _ Hin) as [ks [w Hk]].
+      destruct (wf_ns c _ Hwf Hin) as [dflt [df [rest [Hs _]]]]. cbn [fst snd] in *. subst locs.
+      eapply inner_ok_no_error; eauto.
+    + apply forallb_forall. intros nf Hin.
+      destruct (check_locales_ok_ns _ _ (ns_files_of c) _ _ _ Hc Hnsnd nf Hin) as [ks [w [Hk Hfind]]].
+      destruct (wf_ns c nf Hwf Hin) as [dflt [df [rest [Hs [Hnd [Hext Hfn]]]]]].
+      unfold spec_C03_ns. rewrite Hs. rewrite Hs in Hk.
+      assert (Hnull : forest_has_null df = false).
+      { pose proof (inner_ok_no_error _ _ _ _ _ _ _ _ Hk) as Hno. unfold ns_calls_for_error in Hno. cbn [snd] in Hno.
+        now apply orb_false_iff in Hno. }
+      rewrite Hnull. cbn [negb andb]. apply forallb_forall. intros [p b] Hp. cbn [fst snd].
+      destruct b; [|reflexivity].
+      assert (Hdfn : forest_nodup df = true) by (apply (Hfn (dflt, df)); rewrite Hs; now left).
+      destruct (default_leaf_payload df p Hdfn Hnull Hp) as [pay Hpay].
+      pose proof (inner_leaf_form _ _ _ _ _ _ _ _ Hk p) as Hleaf. rewrite Hpay in Hleaf. cbn [option_map] in Hleaf.
+      unfold find_entry. change (fun e : entry => onskey_eqb (e_ns e) (fst nf) && list_eqb (e_path e) p) with (matcher (fst nf) p).
+      change (model_entries c out) with (flat_map (entries_of (ns_files_of c)) out).
+      rewrite (Hfind p pay _ Hleaf), (ns_files_of_In c nf Hnsnd Hin), Hs.
+      eapply leaf_spec; eauto.
+  - cbn [spec_C03]. destruct (check_locales_err _ _ _ _ Hc) as [[ns locs] [Hin Hk]].
+    destruct (wf_ns c _ Hwf Hin) as [dflt [df [rest [Hs [Hnd [Hext Hfn]]]]]]. cbn [fst snd] in *. subst locs.
+    unfold calls_for_error. apply existsb_exists. exists (ns, (dflt, df) :: rest). split; [assumption|].
+    eapply inner_err_calls. eapply inner_err_genuine; eauto. apply (Hfn (dflt, df)). now left.
+Qed.
